@@ -41,6 +41,10 @@ type c11Inv struct {
 // after GracefulClose returned no handler is running and none is invoked.
 func runC11(c *core.Ctx) {
 	t := c.T
+	if t.Bias(1, 10, "single-cycle-slow-sources") {
+		runC11Gather(c)
+		return
+	}
 	ci := 100 * time.Millisecond
 	scheduled := !t.Bias(1, 4, "nosched")
 	var s *sched.Sched
